@@ -284,6 +284,23 @@ def cases(rng, tier):
         for env in envs:
             out.append(mk(rng, tier, [fmt("d", [[lit(d)]]), lit(" "), fmt("date", [[lit("x" + d)], [lit("utc")]], spec(1, (None, 1), "40"))],
                           envsel=env))
+    # a date under a MAX width (and a min width) around the length of its UTC rendering: what is cut / padded is
+    # the rendering in the zone of the record, whatever a rendering made at construction time looked like
+    for d in ("%Z", "%z", "%:z", "%Z%Z", "%Y%Z"):
+        for k in ("1", "2", "3", "4", "5", "6", "8"):
+            for env in envs:
+                out.append(mk(rng, tier, [lit("<"), fmt("d", [[lit(d)]], spec(1, None, None, k)), lit("|"),
+                                         fmt("date", [[lit(d)], [lit("local")]], spec(1, ("*", 1), k, "9")), lit(">")],
+                              envsel=env))
+    # every group kind around ONE child that carries its own spec (max only / min only / both), the group
+    # with a wider min, a narrower max, both: the two specs apply one after the other, inner first
+    for gname in ("h", "highlight", "", "D", "R"):
+        for inner in (spec(1, None, None, "3"), spec(1, (None, 1), "5"), spec(1, ("~", 0), "2", "4")):
+            for outer in (spec(1, None, "6"), spec(1, ("*", 1), "7"), spec(1, None, None, "2"), spec(1, ("0", 0), "6", "8")):
+                for child in ("m", "l", "t"):
+                    for env in envs:
+                        out.append(mk(rng, tier, [lit("["), fmt(gname, [[fmt(child, (), inner)]], outer), lit("]")],
+                                      envsel=env))
     out.append(mk(rng, tier, [fmt("d", [[]])]))
     out.append(mk(rng, tier, [fmt("d", [[], [lit("utc")]]), lit("!")]))
     # (d) MDC finding class and look-ahead finding class, explicitly
